@@ -125,6 +125,11 @@ def dense(S):
 def compare(job, servers, stats, case):
     answers = [s.ask(job) for s in servers]
     stats.evaluations += 1
+    if any(a.get("kind") != "ok" for a in answers) and not all(a.get("kind") == answers[0].get("kind") for a in answers):
+        # a wall-clock time-out in one of the servers (machine load) is not a difference between runs
+        stats.inconclusive += 1
+        stats.classes["inconclusive: a server timed out / failed on this job"] += 1
+        return []
     ref = answers[0]
     if ref["kind"] == "ok" and job["type"] == "block":
         if any(dense(S) for d in ref["value"] for S in (d.get("spec") or {}).values()):
